@@ -49,6 +49,16 @@ def obj_xml(kind, o):
         o["id"], o["v"], "".join('<property tag="k" value="%d"/>' % k for k in o["kids"]))
 
 
+def real_href(inc):
+    """the href as written in the document: the plain name, or the same file spelt with ./ , a doubled slash, or through a
+    symbolic link to a directory followed by .. (lnk -> sd/deep, so lnk/../x is sd/x and NOT ./x)"""
+    return inc.get("prefix", "") + inc["href"]
+
+
+def inc_dir(inc, root):
+    return os.path.join(root, "sd") if "lnk/../" in inc.get("prefix", "") else root
+
+
 def build_parsed(case):
     """the document comes from the PARSER (every component knows its parent_object_).  build = "parsed": as written;
     build = "moved": definitions marked from_cell were parsed as the embedded child of that cell and are then made
@@ -64,7 +74,7 @@ def build_parsed(case):
             else:
                 moved.append((kind, o))
                 cells[o["from_cell"]][kind] = {"attr": None, "emb": o}
-    body = "".join('<include href="%s"/>' % f["href"] for f in case["incs"])
+    body = "".join('<include href="%s"/>' % real_href(f) for f in case["incs"])
     body += "".join(obj_xml("m", o) for o in top["m"]) + "".join(obj_xml("b", o) for o in top["b"])
     body += "".join(cell_xml(c) for c in cells if c["list"] == "cells")
     body += "".join(cell_xml(c) for c in cells if c["list"] == "cells2")
@@ -88,7 +98,7 @@ def build(case):
         return build_parsed(case)
     doc = neuroml.NeuroMLDocument(id="d")
     for inc in case["incs"]:
-        doc.includes.append(neuroml.IncludeType(href=inc["href"]))
+        doc.includes.append(neuroml.IncludeType(href=real_href(inc)))
     for o in case["morphs"]:
         doc.morphology.append(mk_obj("m", o))
     for o in case["bios"]:
@@ -315,7 +325,7 @@ def cell_xml(c):
 
 
 def write_main(case, root):
-    body = "".join('<include href="%s"/>' % f["href"] for f in case["incs"])
+    body = "".join('<include href="%s"/>' % real_href(f) for f in case["incs"])
     body += "".join(obj_xml("m", o) for o in case["morphs"]) + "".join(obj_xml("b", o) for o in case["bios"])
     body += "".join(cell_xml(c) for c in case["cells"] if c["list"] == "cells")
     body += "".join(cell_xml(c) for c in case["cells"] if c["list"] == "cells2")
@@ -369,13 +379,21 @@ H5_FORMS = (".nml.h5", ".h5", ".hdf5")
 def write_incs(case, root):
     """(re)write the included files of a case: XML text, or - for the HDF5 forms - a NeuroML HDF5 file written by the
     repo's writer (one network, the definitions in the embedded XML)"""
-    for fn in os.listdir(root):
-        if fn.startswith("inc"):
-            os.remove(os.path.join(root, fn))
+    os.makedirs(os.path.join(root, "sd", "deep"), exist_ok=True)
+    if not os.path.islink(os.path.join(root, "lnk")):
+        os.symlink(os.path.join("sd", "deep"), os.path.join(root, "lnk"))
+    for d in (root, os.path.join(root, "sd")):
+        for fn in os.listdir(d):
+            if fn.startswith("inc"):
+                os.remove(os.path.join(d, fn))
     for inc in case["incs"]:
         if inc.get("missing"):
             continue
-        path = os.path.join(root, inc["href"])
+        path = os.path.join(inc_dir(inc, root), inc["href"])
+        if inc_dir(inc, root) != root:
+            # a decoy where a textual collapse of lnk/.. would look: well-formed, defines nothing
+            with open(os.path.join(root, inc["href"]), "w") as fh:
+                fh.write('<neuroml %s id="decoy"></neuroml>' % NS)
         if inc["href"].endswith(H5_FORMS):
             d = neuroml.NeuroMLDocument(id="inc")
             d.networks.append(neuroml.Network(id="incnet"))
@@ -386,11 +404,14 @@ def write_incs(case, root):
             for n in inc.get("nested", []):  # the embedded XML has includes of its own: the HDF5 loader always resolves them
                 d.includes.append(neuroml.IncludeType(href=n["href"]))
                 nb = "".join(obj_xml("m", o) for o in n["morphs"]) + "".join(obj_xml("b", o) for o in n["bios"])
-                with open(os.path.join(root, n["href"]), "w") as fh:
+                with open(os.path.join(inc_dir(inc, root), n["href"]), "w") as fh:
                     fh.write('<neuroml %s id="nested">%s</neuroml>' % (NS, nb))
             W.NeuroMLHdf5Writer.write(d, path)
         else:
             body = "".join(obj_xml("m", o) for o in inc["morphs"]) + "".join(obj_xml("b", o) for o in inc["bios"])
+            if inc.get("pad"):  # a large file: the definitions start far into it
+                body = "<notes>%s</notes>" % ("large model file. " * (inc["pad"] // 18 + 1)) + \
+                       "".join('<ionChannel id="ch%d" conductance="10pS"/>' % i for i in range(400)) + body
             with open(path, "w") as fh:
                 fh.write('<neuroml %s id="inc">%s</neuroml>' % (NS, body))
 
